@@ -256,6 +256,9 @@ def default_cfg(rng=None, counts=(1, 1, 1, 1, 1)):
         cfg.update(gnb_bitlength=bl, gnb_id=bytes(rng.below(128) for _ in range((bl + 7) // 8)),
                    gnb_name="".join(rng.choice("abcdefgh-XYZ019") for _ in range(rng.choice([1, 7, 40]))),
                    gnb_gtp="10.%d.%d.%d" % (rng.below(256), rng.below(256), rng.range(1, 254)))
+        # an AMF-side choice: where the reference AMF's cycle of optional downlink IEs starts (a function of values already
+        # drawn, so that the configurations of earlier runs stay what they were)
+        cfg["dlnas_phase"] = sum(cfg["gnb_id"]) % 8
     return cfg
 
 
